@@ -149,11 +149,20 @@ async fn script(c: &mut Client, cmds: &[Cmd]) -> Option<String> {
         let has_more = match field(&r, "has_more") { Some(BytesFrame::Boolean { data, .. }) => *data, _ => false };
         // the property only demands that has_more never HIDES existing events (a spurious `true` costs one more round trip)
         if n != 1 || (!has_more && *count > 1) { return Some(format!("ESCAN s{stream} 0 + COUNT 1 returned {n} events, has_more={has_more}; the stream has {count} events")); }
+        // COUNT 0: an empty page; has_more must still not hide the stream's events
+        let r = match c.cmd(&[s("ESCAN"), format!("s{stream}"), s("-"), s("+"), s("PARTITION_KEY"), s(PK), s("COUNT"), s("0")]).await { Ok(r) => r, Err(e) => return Some(e) };
+        let n0 = field(&r, "events").and_then(list).map(|l| l.len()).unwrap_or(usize::MAX);
+        let has_more0 = match field(&r, "has_more") { Some(BytesFrame::Boolean { data, .. }) => *data, _ => false };
+        if !is_error(&r) && (n0 != 0 || (!has_more0 && *count > 0)) { return Some(format!("ESCAN s{stream} - + COUNT 0 returned {n0} events, has_more={has_more0}; the stream has {count} events (has_more hides them)")); }
     }
     if let Some(p) = pid {
         let r = match c.cmd(&[s("EPSCAN"), p.to_string(), s("-"), s("+"), s("COUNT"), s("1000")]).await { Ok(r) => r, Err(e) => return Some(e) };
         let got: Vec<i64> = field(&r, "events").and_then(list).map(|l| l.iter().filter_map(|e| field(e, "partition_sequence").and_then(int)).collect()).unwrap_or_default();
         if got != (0..total as i64).collect::<Vec<_>>() { return Some(format!("EPSCAN {p} - + returned sequences {got:?}, the model has 0..{total}")); }
+        let r0 = match c.cmd(&[s("EPSCAN"), p.to_string(), s("-"), s("+"), s("COUNT"), s("0")]).await { Ok(r) => r, Err(e) => return Some(e) };
+        let n0 = field(&r0, "events").and_then(list).map(|l| l.len()).unwrap_or(usize::MAX);
+        let has_more0 = match field(&r0, "has_more") { Some(BytesFrame::Boolean { data, .. }) => *data, _ => false };
+        if !is_error(&r0) && (n0 != 0 || (!has_more0 && total > 0)) { return Some(format!("EPSCAN {p} - + COUNT 0 returned {n0} events, has_more={has_more0}; the partition has {total} events (has_more hides them)")); }
         let q = match c.cmd(&[s("EPSEQ"), p.to_string()]).await { Ok(r) => r, Err(e) => return Some(e) };
         if int(&q) != Some(total as i64 - 1) { return Some(format!("EPSEQ {p} returned {q:?}, the model's latest sequence is {}", total as i64 - 1)); }
         let k = match c.cmd(&[s("EPSEQ"), s(PK)]).await { Ok(r) => r, Err(e) => return Some(e) };
